@@ -22,6 +22,7 @@ package synct
 //	setsend  handler calls grpc.SetSendCompressor(name) before its first SendMsg | `-`
 //	reqs/resps  `,`-joined hex messages, `e` = empty message, `-` = no message
 //	frames   `,`-joined <flag>:<hex|e>
+//	In <acc> and in the names of <accept> the character `~` stands for a space.
 //
 // Output (fields absent for a kind are omitted):
 //
@@ -154,7 +155,7 @@ func cmpList(s string) []string {
 	if s == "-" {
 		return nil
 	}
-	return strings.Split(s, "+")
+	return strings.Split(strings.ReplaceAll(s, "~", " "), "+") // `~` stands for a space
 }
 
 func cmpMsgs(s string) [][]byte {
@@ -711,7 +712,7 @@ func (c *compressH) rawc(f []string) string {
 		kv = append(kv, "grpc-encoding", v)
 	}
 	if v, ok := cmpOpt(f[6]); ok {
-		kv = append(kv, "grpc-accept-encoding", v)
+		kv = append(kv, "grpc-accept-encoding", strings.ReplaceAll(v, "~", " ")) // `~` stands for a space
 	}
 	r.writeHeaders(false, kv...)
 	settle()
